@@ -32,7 +32,7 @@ ASSUMPTIONS = [
     "D9/D10: an unterminated quoted string or an open parenthesis at the end of input is accepted (the tokeniser returns the "
     "tokens read so far); such texts are generated (kind unterminated-*) and only checked for model = impl and no panic",
     "the generated RR entries are 'unambiguous': no owner / RDATA-name token is all digits, 'IN', a type mnemonic or TYPE<n>",
-    "std's Ipv4Addr/Ipv6Addr FromStr/Display are a parameter of the model (instance: coq/ZoneFile/ZfIpStub.v, to be replaced by Ip/IpModel.v)",
+    "std's Ipv4Addr/Ipv6Addr FromStr/Display are a parameter of the model (all theorems hold for every codec); the driver instance is Ip/IpModel.v (coq/ZoneFile/ZfInstance.v)",
 ]
 TRUSTED = ["python denotation vlib/zonefilegen.py denote (the oracle's reading of RFC 1035 section 5 plus D3/D4)"]
 
